@@ -20,10 +20,10 @@ func init() {
 	sym.Register("c11.HIsolation", HIsolation)
 }
 
-var dirs = []string{"/w", "/w/a", "/", "/w/a/.."}
+var dirs = []string{"/w", "/w/a", "/", "/w/a/..", "."}
 
 // NumDirs is len(dirs).
-const NumDirs = 4
+const NumDirs = 5
 
 var Ops = []string{"Stat", "Lstat", "ReadDir", "ReadFile", "Mkdir", "MkdirAll", "WriteFile", "Remove", "RemoveAll", "RenameTo", "RenameFrom", "Chmod", "Truncate", "OpenFile", "Link"}
 
@@ -98,9 +98,17 @@ func HView(di, op, n int) {
 	Q := hx.NewBareMemFS()
 	seed(P)
 	seed(Q)
+	if d == "." {
+		// a relative directory is resolved from the working directory of the parent
+		hx.Must(P.Chdir("/w"))
+		hx.Must(Q.Chdir("/w"))
+	}
 	V, err := P.Sub(d)
 	hx.Must(err)
 	cd := filepath.Clean(d)
+	if d == "." {
+		cd = "/w"
+	}
 	// "/.." is clamped at the view's root: the twin path is the cleaned path below d
 	twin := filepath.Join(cd, filepath.Clean(p))
 	// the fixed second operand exists in every view: its first file
@@ -160,6 +168,9 @@ func entry(v avfs.VFS, p string) string {
 func HIsolation(di int) {
 	P := hx.NewBareMemFS()
 	seed(P)
+	if dirs[di] == "." {
+		hx.Must(P.Chdir("/w"))
+	}
 	V, err := P.Sub(dirs[di])
 	hx.Must(err)
 	S, err := P.Sub("/w")
@@ -175,8 +186,12 @@ func HIsolation(di int) {
 	_ = V.SetUser(&sysx.User{N: "u", UID: uid, GID: uid})
 	_ = V.SetUMask(fsMode(mask))
 	_ = V.Chdir("/")
-	if cd := filepath.Clean(dirs[di]); cd == "/w" || cd == "/" {
-		_ = V.Chdir(map[string]string{"/w": "/a", "/": "/w"}[cd])
+	cdir := filepath.Clean(dirs[di])
+	if dirs[di] == "." {
+		cdir = "/w"
+	}
+	if cdir == "/w" || cdir == "/" {
+		_ = V.Chdir(map[string]string{"/w": "/a", "/": "/w"}[cdir])
 	}
 	sym.Assert(V.User().Uid() == uid && V.UMask() == fsMode(mask), "C11|isolation|view-does-not-keep-its-own-settings")
 	pwd2, _ := P.Getwd()
@@ -186,10 +201,22 @@ func HIsolation(di int) {
 	// a change made through the parent is visible through the views at once
 	hx.Must(P.WriteFile("/w/a/new", []byte("n"), 0o666))
 	_ = V.SetUser(P.User())
-	in := map[string]string{"/w": "/a/new", "/w/a": "/new", "/": "/w/a/new"}[filepath.Clean(dirs[di])]
+	in := map[string]string{"/w": "/a/new", "/w/a": "/new", "/": "/w/a/new"}[cdir]
 	_, e1 := V.Stat(in)
 	_, e2 := S.Stat("/a/new")
 	sym.Assert(e1 == nil && e2 == nil, "C11|isolation|change-through-parent-not-visible-in-view")
+	// files created through the view and through the parent are different files;
+	// two names of one file are the same file whichever side looks
+	hx.Must(V.WriteFile(map[string]string{"/w": "/v1", "/w/a": "/v1", "/": "/w/v1"}[cdir], []byte("v"), 0o666))
+	hx.Must(P.WriteFile("/w/p1", []byte("p"), 0o666))
+	viaView := map[string]string{"/w": "/w/v1", "/w/a": "/w/a/v1", "/": "/w/v1"}[cdir]
+	f1, s1 := P.Stat(viaView)
+	f2, s2 := P.Stat("/w/p1")
+	f0, s0 := P.Stat("/w/a/new")
+	sym.Assert(s0 == nil && s1 == nil && s2 == nil && !P.SameFile(f1, f2) && !P.SameFile(f0, f1) && !P.SameFile(f0, f2), "C11|isolation|unrelated-files-created-through-view-and-parent-are-SameFile")
+	hx.Must(P.Link("/w/p1", "/w/p2"))
+	f3, s3 := P.Stat("/w/p2")
+	sym.Assert(s3 == nil && P.SameFile(f2, f3), "C11|isolation|hard-links-not-SameFile")
 }
 
 func fsMode(m uint32) fs.FileMode { return fs.FileMode(m) }
